@@ -1,16 +1,57 @@
 (** Property C09 — LSP positions, ranges and URIs translate between template and generated file.
-    OBLIGATIONS: C09_nonvacuous *)
-From GV Require Import Compiler.Compile.
+    OBLIGATIONS: C09_mapped_position_forwarded C09_unmapped_position_empty C09_position_is_current_map
+      C09_generated_location_translated C09_other_location_unchanged C09_location_methods C09_nonvacuous *)
+From GV Require Import Proxy.Proxy Proofs.ProxyProofs.
+
+(** every position method: when the map assigns a position, the Go language server is asked about the
+    generated file there, and only that *)
+Theorem C09_mapped_position_forwarded : forall compile st m u p answer gu q,
+  position_method m = true -> update_position st u p = Some (gu, q) ->
+  exists r, step compile st (EReq m u p answer) = (st, [Ds (DsReq m gu q)], r).
+Proof. exact request_mapped. Qed.
+Print Assumptions C09_mapped_position_forwarded.
+
+(** no counterpart: empty answer, no error, the Go language server is not consulted *)
+Theorem C09_unmapped_position_empty : forall compile st m u p answer,
+  position_method m = true -> update_position st u p = None ->
+  step compile st (EReq m u p answer) = (st, [], REmpty).
+Proof. exact request_unmapped. Qed.
+Print Assumptions C09_unmapped_position_empty.
+
+(** the position asked is the one assigned by the map of the compilation of the *current* buffer *)
+Theorem C09_position_is_current_map : forall compile st u p gu q text,
+  Coherent compile st -> lookup u (ps_srcs st) = Some text -> update_position st u p = Some (gu, q) ->
+  gu = to_goht_go u /\ s2t_pos (c_map (compile text)) p = Some q.
+Proof. exact update_position_spec. Qed.
+Print Assumptions C09_position_is_current_map.
+
+Theorem C09_generated_location_translated : forall st l m,
+  is_goht_go_uri (l_uri l) = true -> lookup (to_goht (l_uri l)) (ps_smc st) = Some m ->
+  translate_loc st l =
+    mkLoc (to_goht (l_uri l))
+          (mkRange (match t2s_pos m (r_start (l_range l)) with Some p => p | None => r_start (l_range l) end)
+                   (match t2s_pos m (r_end (l_range l)) with Some p => p | None => r_end (l_range l) end)).
+Proof. exact translate_loc_generated. Qed.
+Print Assumptions C09_generated_location_translated.
+
+Theorem C09_other_location_unchanged : forall st l, is_goht_go_uri (l_uri l) = false -> translate_loc st l = l.
+Proof. exact translate_loc_other. Qed.
+Print Assumptions C09_other_location_unchanged.
+
+Theorem C09_location_methods : forall compile st m u p ls gu q,
+  (m = MDefinition \/ m = MDeclaration \/ m = MTypeDefinition \/ m = MImplementation \/ m = MReferences) ->
+  update_position st u p = Some (gu, q) ->
+  snd (step compile st (EReq m u p (Some ls))) = RLocs (map (translate_loc st) ls).
+Proof. exact location_answers_translated. Qed.
+Print Assumptions C09_location_methods.
 
 Example C09_nonvacuous :
+  let u := lit "file:///w/a.goht" in
   let src := lit "@goht T(a string) {" ++ [10; 9] ++ lit "%p #{a}" ++ [10] ++ lit "}" ++ [10] in
-  match lsp_compose src with
-  | Some (_, adds, None) =>
-    match s2t (sm_entries adds) 1%Z 6%Z with
-    | Some (tl, tc) => match t2s (sm_entries adds) tl tc with Some (sl, sc) => Z.eqb sl 1 && Z.eqb sc 6 | None => false end
-    | None => false
-    end
-  | _ => false
-  end = true.
-Proof. vm_compute. reflexivity. Qed.
+  let st := fst (run model_compile ps_init [EOpen u (lit "goht") 1 src]) in
+  match update_position st u (mkPos 1 6) with
+  | Some (gu, q) => beqb gu (lit "file:///w/a.goht.go") && Z.eqb (p_line q) 20 && Z.eqb (p_char q) 58
+  | None => false
+  end = true /\ update_position st u (mkPos 1 0) = None.
+Proof. split; vm_compute; reflexivity. Qed.
 Print Assumptions C09_nonvacuous.
